@@ -608,10 +608,17 @@ class TypedT1Property:
             if f.get("what") not in seen:
                 seen.add(f.get("what"))
                 uniq.append(f)
-        for f in uniq[:4]:
+        n_viol = len(chk.violations)
+        known_first = sorted(uniq, key=lambda f: 0 if f.get("class") else 1)
+        shown, plain = [], 0
+        for f in known_first:  # every known-finding class, plus up to four other distinct failing inputs
+            if f.get("class") or plain < 4:
+                shown.append(f)
+                plain += 0 if f.get("class") else 1
+        for f in shown:
             sig = self.signature_of(f) if self.signature_of else {"what": f.get("what")}
             chk.failing_input(sig, {"input": f, "broken": chk.broken})
-        if chk.broken and not found:
+        if chk.broken and len(chk.violations) == n_viol:
             for b in chk.broken:
                 chk.unexplained(b.get("theorem") or b.get("what"), b)
         chk.coverage["rule"] = (
